@@ -56,7 +56,7 @@ pub fn parse_digits(value: &str) -> Result<Vec<u64>, String> {
         let digit = match c {
             '0'..='9' => c as u64 - '0' as u64,
             'a'..='f' => c as u64 - 'a' as u64 + 10,
-            'A'..='F' => c as u64 - 'A' as u64 + 10,
+            'A'..='F' => c as u64 - 'A' as u64,
             '_' => continue,
             _ => return Err(format!("Invalid character '{c}'")),
         };
